@@ -10,9 +10,10 @@ DRV = 'drv_c03'
 
 REGISTRY = {
     'id': 'C03',
-    'text': 'Lean (12 theorems): the two encodings of every +1 ion agree (ion_tables_agree, kernel evaluation of the adduct parser model '
+    'text': 'Lean (13 theorems): the two encodings of every +1 ion agree (ion_tables_agree, kernel evaluation of the adduct parser model '
             'over the generated tables); chem_mass is linear over addition / scaling / merge_dicts / zero-dropping and equals the linear '
-            'form on known elements; averagine estimation is mass-exact over Q (estimate_comp_mass); and mass_eq_compMass_partial: the model '
+            'form on known elements; averagine estimation is mass-exact over Q (estimate_comp_mass); and mass_eq_compMass_partial / '
+            'mass_eq_compMass_static (without / with global static rules incl. N-Term, C-Term and multi-residue targets): the model '
             'of mass() equals chem_mass(comp_mass().composition) + delta + loss + k*eps EXACTLY over Q (eps = PROTON_MASS - (m(H) - m_e), '
             'epsilon_bound: 2e-8 mono / 1.2e-4 average; k = charge resp. charge - 1) for every annotation whose written modifications '
             'resolve self-consistently, every placement and multiplier, 18 ion types, any charge / isotope / loss, both modes; with isotope '
@@ -20,8 +21,8 @@ REGISTRY = {
             'condense_static_mods / isotope substitution are tied to /repo by differential correspondence (exact compositions, masses at '
             '1e-7) and the identity is searched on the implementation at 1e-4 Da (mono) / 1e-3 Da + 5 ppm (average)',
     'note': 'trusted: Lean kernel; translator; per-modification resolution (mass, composition, delta-only) and parse_static_mods are '
-            'parameters of the model (C10 / C12). The central theorem does not cover global static rules and explicit adduct lists '
-            '(correspondence + oracle only; adduct counts != 1 are the known finding KF-C03-adduct-electron-count)',
+            'parameters of the model (C10 / C12). The central theorems do not cover explicit adduct lists and use_isotope_on_mods / '
+            'isotope substitution (correspondence + oracle only; adduct counts != 1 are the known finding KF-C03-adduct-electron-count)',
     'technique': 'Lean 4 proof about executable model + generated tables checked by kernel evaluation + differential correspondence '
                  '+ direct identity oracle',
 }
